@@ -112,6 +112,41 @@ fn vob_intersect(v1: &Vob, v2: &Vob) -> bool {
     false
 }
 
+/// Verification hook: an integer encoding of a symbol (token `t` as `t`, rule `r` as
+/// `100000 + r`).
+#[cfg(grmtools_verif)]
+fn verif_sym<StorageT: PrimInt + Unsigned>(sym: &Symbol<StorageT>) -> usize {
+    match *sym {
+        Symbol::Token(tidx) => usize::from(tidx),
+        Symbol::Rule(ridx) => 100_000 + usize::from(ridx),
+    }
+}
+
+/// Verification hook: a JSON rendering `[[pidx, dot, [tidx, ...]], ...]` of an itemset, sorted.
+#[cfg(grmtools_verif)]
+fn verif_itemset<StorageT: Hash + PrimInt + Unsigned>(is: &Itemset<StorageT>) -> String {
+    let mut items = is
+        .items
+        .iter()
+        .map(|(&(pidx, dot), ctx)| {
+            (
+                usize::from(pidx),
+                usize::from(dot),
+                ctx.iter_set_bits(..).collect::<Vec<_>>(),
+            )
+        })
+        .collect::<Vec<_>>();
+    items.sort();
+    format!(
+        "[{}]",
+        items
+            .iter()
+            .map(|(p, d, la)| format!("[{},{},{:?}]", p, d, la))
+            .collect::<Vec<_>>()
+            .join(",")
+    )
+}
+
 /// Create a `StateGraph` from 'grm'.
 pub(crate) fn pager_stategraph<StorageT: 'static + Hash + PrimInt + Unsigned>(
     grm: &YaccGrammar<StorageT>,
@@ -174,6 +209,8 @@ where
         };
         todo_off = state_i + 1;
         todo -= 1;
+        #[cfg(grmtools_verif)]
+        cfgrammar::verif::emit(|| format!("{{\"ev\":\"pick\",\"i\":{}}}", state_i));
 
         {
             closed_states[state_i] = Some(core_states[state_i].close(grm, &firsts));
@@ -221,6 +258,15 @@ where
                 // weakly compatible with itself).
                 for cnd in cnd_states.iter().cloned() {
                     if core_states[usize::from(cnd)] == nstate {
+                        #[cfg(grmtools_verif)]
+                        cfgrammar::verif::emit(|| {
+                            format!(
+                                "{{\"ev\":\"exact\",\"sym\":{},\"k\":{},\"ns\":{}}}",
+                                verif_sym(&sym),
+                                usize::from(cnd),
+                                verif_itemset(&nstate)
+                            )
+                        });
                         edges[state_i].insert(sym, cnd);
                         continue 'a;
                     }
@@ -238,6 +284,15 @@ where
                 Some(k) => {
                     // A weakly compatible match has been found.
                     edges[state_i].insert(sym, k);
+                    #[cfg(grmtools_verif)]
+                    cfgrammar::verif::emit(|| {
+                        format!(
+                            "{{\"ev\":\"merge\",\"sym\":{},\"k\":{},\"ns\":{}}}",
+                            verif_sym(&sym),
+                            usize::from(k),
+                            verif_itemset(&nstate)
+                        )
+                    });
                     if core_states[usize::from(k)].weakly_merge(&nstate) {
                         // We only do the simplest change propagation, forcing possibly
                         // affected sets to be entirely reprocessed (which will recursively
@@ -271,6 +326,15 @@ where
                         }
                     }
                     edges[state_i].insert(sym, stidx);
+                    #[cfg(grmtools_verif)]
+                    cfgrammar::verif::emit(|| {
+                        format!(
+                            "{{\"ev\":\"new\",\"sym\":{},\"k\":{},\"ns\":{}}}",
+                            verif_sym(&sym),
+                            usize::from(stidx),
+                            verif_itemset(&nstate)
+                        )
+                    });
                     edges.push(HashMap::new());
                     closed_states.push(None);
                     core_states.push(nstate);
@@ -286,6 +350,8 @@ where
     // 100 runs, 24 or 25 states will be created instead of 23). We thus need to weed out
     // unreachable states and update edges accordingly.
     debug_assert_eq!(core_states.len(), closed_states.len());
+    #[cfg(grmtools_verif)]
+    cfgrammar::verif::emit(|| format!("{{\"ev\":\"pregc\",\"n\":{}}}", core_states.len()));
     let (gc_states, gc_edges) = gc(
         core_states
             .drain(..)
